@@ -280,12 +280,13 @@ func onlyForeignCredits(d []string, payer, sender string, nonce uint64, fee *big
 	return n > 0
 }
 
-// sentAway sums what a stub script sends to accounts other than the contract itself.
-func sentAway(script string, self []byte) *big.Int {
+// sentAway sums what a stub script sends to accounts other than the contract itself and the
+// transaction's sender (both are reset on the failure path, so what they received is undone).
+func sentAway(script string, self, sender []byte) *big.Int {
 	sum := new(big.Int)
 	for _, st := range strings.Split(script, ";") {
 		f := strings.Fields(st)
-		if len(f) == 3 && f[0] == "send" && f[1] != fmt.Sprintf("%x", self) {
+		if len(f) == 3 && f[0] == "send" && f[1] != fmt.Sprintf("%x", self) && f[1] != fmt.Sprintf("%x", sender) {
 			if a, ok := new(big.Int).SetString(f[2], 10); ok {
 				sum.Add(sum, a)
 			}
